@@ -103,4 +103,24 @@ def evalRow [Add K] [Mul K] [Sub K] [Neg K] [Div K] [OfNat K 0] (u : UpdRow n K)
     let p := -b / a
     lin + (-(P row row) * x row) + (P row row * (x row - p) + p)
 
+/-! ### the terms of an update expression as `generate_propagator_solver` writes them (used by the regenerated
+assembly loop, Generated/PyPropagator.lean) -/
+
+/-- one summand of the string `" + ".join(update_expr_terms)` -/
+inductive Term (n : Nat) (K : Type) where
+  | px (r c : Fin n)             -- `__P__r__c * x_c`
+  | stepB (bv : K)               -- `h * (b_r)`
+  | negPx (r : Fin n)            -- `-__P__r__r * x_r`
+  | affine (r : Fin n) (p : K)   -- `__P__r__r * (x_r - (p)) + (p)`
+
+def evalTerm [Add K] [Mul K] [Sub K] [Neg K] (P : Fin n → Fin n → K) (h : K) (x : Fin n → K) : Term n K → K
+  | .px r c => P r c * x c
+  | .stepB bv => h * bv
+  | .negPx r => -(P r r) * x r
+  | .affine r p => P r r * (x r - p) + p
+
+/-- value of `" + ".join(terms)` -/
+def evalTerms [Add K] [Mul K] [Sub K] [Neg K] [OfNat K 0] (ts : List (Term n K)) (P : Fin n → Fin n → K) (h : K) (x : Fin n → K) : K :=
+  (ts.map (evalTerm P h x)).foldl (· + ·) 0
+
 end OdeVerif.Propagator
